@@ -8,6 +8,7 @@ pub mod c08a;
 pub mod c14;
 pub mod c15;
 pub mod tcp_pair;
+pub mod tcp_peer;
 pub mod tcp_sender;
 
 pub struct Part {
@@ -27,12 +28,19 @@ pub struct Monitor {
 }
 
 pub fn all() -> Vec<Monitor> {
-    vec![tcp_pair::monitor_c01(), tcp_pair::monitor_c02(), tcp_pair::monitor_c05(), c06::monitor(), c07::monitor(), c08(), tcp_pair::monitor_c13(), c14::monitor(), c15::monitor()]
+    vec![tcp_pair::monitor_c01(), tcp_pair::monitor_c02(), tcp_peer::monitor_c04(), c05(), tcp_peer::monitor_c17(), c06::monitor(), c07::monitor(), c08(), tcp_pair::monitor_c13(), c14::monitor(), c15::monitor()]
 }
 
 /// C08: checksum routine vs. reference (c08a) [+ emitted-valid and enforced parts when built]
 fn c08() -> Monitor {
     let mut m = c08a::monitor();
     m.id = "C08";
+    m
+}
+
+/// C05 = two-endpoint part (i) + scripted-peer part (ii)
+fn c05() -> Monitor {
+    let mut m = tcp_pair::monitor_c05();
+    m.parts.push(Part { name: "scripted-peer", cases: |c| c.n(10_000, 300_000), f: tcp_peer::c05_peer_case });
     m
 }
